@@ -1,1 +1,118 @@
-(** Props/C11.v — placeholder, to be written. *)
+(** Props/C11.v — pype: child context isolation, out mapping, error and stop propagation,
+    and the pipeline call-stack. [rp] = the child pipeline run: every theorem holds for ALL
+    child behaviours (any child pipeline, any depth of further pypes). *)
+From PV Require Import Engine EngineProofs.
+Open Scope string_scope.
+Notation RG := (list val -> option string -> option string -> st -> R).
+Notation RP := (string -> option (list val) -> option string -> option string -> st -> R).
+
+(** own context: the child starts from [args] only, on a fresh call stack; afterwards the
+    parent gets back its own context and stack, plus [out] *)
+Theorem C11_own_context : forall (rp : RP) s pa,
+  get_arguments s = Ok pa -> pa_use_parent pa = false ->
+  pype_step rp s =
+  (let '(o, child) := rp (pa_name pa) (pa_groups pa) (pa_success pa) (pa_failure pa)
+                         (child_start pa s) in
+   let parent := back_in_parent s child in
+   pype_guard pa
+     (match o with
+      | OOk =>
+          match pa_out pa with
+          | Some out =>
+              if py_truth out then
+                match out_pairs out with
+                | Some pairs => write_out pairs child parent
+                | None => (OUnsup, parent)
+                end
+              else (OOk, parent)
+          | None => (OOk, parent)
+          end
+      | _ => (o, parent)
+      end)).
+Proof. exact pype_step_own_context. Qed.
+Print Assumptions C11_own_context.
+
+(** isolation: every parent key not named by [out] keeps its value, whatever the child did *)
+Theorem C11_isolation : forall (rp : RP) s pa key,
+  get_arguments s = Ok pa -> pa_use_parent pa = false ->
+  (forall out pairs, pa_out pa = Some out -> out_pairs out = Some pairs ->
+     Forall (fun kv : val * val => val_eqb (fst kv) (VStr key) = false) pairs) ->
+  sget key (ctx (snd (pype_step rp s))) = sget key (ctx s).
+Proof. exact pype_isolation. Qed.
+Print Assumptions C11_isolation.
+
+(** shared context: the child runs on the parent's very context (args merged in first) *)
+Theorem C11_shared_context : forall (rp : RP) s pa,
+  get_arguments s = Ok pa -> pa_use_parent pa = true ->
+  pype_step rp s =
+  pype_guard pa (rp (pa_name pa) (pa_groups pa) (pa_success pa) (pa_failure pa)
+                    (match pa_args pa with
+                     | Some ((_ :: _) as a) => set_ctx s (dict_update (ctx s) a)
+                     | _ => s
+                     end)).
+Proof. exact pype_step_shared_context. Qed.
+Print Assumptions C11_shared_context.
+
+(** a child error fails the pype step unless raiseError is false, then the parent carries on *)
+Theorem C11_error_table : forall pa n m e s',
+  pype_guard pa (ORaise (RExn n m e), s') =
+  if pa_raise pa then (ORaise (RExn n m e), s') else (OOk, s').
+Proof. exact pype_guard_error. Qed.
+Print Assumptions C11_error_table.
+
+(** Stop passes through (to end all pipelines) ... *)
+Theorem C11_stop_passes : forall pa sg s', pype_guard pa (ORaise (RSig sg), s') = (ORaise (RSig sg), s').
+Proof. exact pype_guard_signal. Qed.
+Print Assumptions C11_stop_passes.
+
+(** ... whereas StopPipeline ends only the child: its run reports success to the pype step *)
+Theorem C11_stoppipeline_ends_child : forall lib (rg : RG) name pl groups su fa s s1,
+  find (fun p => String.eqb (fst p) name) lib = Some pl ->
+  rg (effective_groups groups)
+     (if defaulted groups su fa then Some "on_success" else su)
+     (if defaulted groups su fa then Some "on_failure" else fa)
+     (set_stack s (name :: stack s)) = (ORaise (RSig SStopPipeline), s1) ->
+  load_and_run lib rg name groups su fa s = (OOk, set_stack s1 (tl (stack s1))).
+Proof. exact load_and_run_stoppipeline. Qed.
+Print Assumptions C11_stoppipeline_ends_child.
+
+(** after the child ended IN ANY WAY the parent is again the current pipeline.
+    own context: directly *)
+Theorem C11_stack_own_context : forall (rp : RP) s pa,
+  get_arguments s = Ok pa -> pa_use_parent pa = false ->
+  stack (snd (pype_step rp s)) = stack s.
+Proof. exact pype_own_context_stack. Qed.
+Print Assumptions C11_stack_own_context.
+
+(** in general (shared context included), for every library, fuel, outcome: push / run /
+    pop-in-finally leaves the call stack balanced — by induction on fuel over the whole
+    interpreter ([ext] also says trace and clock only grow) *)
+Theorem C11_stack_balanced : forall fuel lib name gs su fa, good (run_pipeline fuel lib name gs su fa).
+Proof. exact good_run_pipeline. Qed.
+Print Assumptions C11_stack_balanced.
+
+Theorem C11_stack_balanced_groups : forall fuel lib gs su fa, good (run_groups fuel lib gs su fa).
+Proof. exact good_run_groups. Qed.
+Print Assumptions C11_stack_balanced_groups.
+
+(** * Non-vacuity: child fails after mutating; parent isolated, carries on, call resolves in parent *)
+Definition T (nm : string) (b : body) (inn : dict) : step :=
+  mkstep nm b (Some inn) None None None (VBool true) (VBool false) (VBool false) None (Some (1, 5)%Z).
+Definition lib11 : library :=
+  [("main", [("steps", Some [
+       T "pypyr.steps.pype" BPype [(VStr "pype", VDict [(VStr "name", VStr "child");
+              (VStr "args", VDict [(VStr "x", VInt 1)]); (VStr "raiseError", VBool false)])];
+       T "pypyr.steps.call" BCall [(VStr "call", VStr "g")];
+       T "vprobe" BProbe [(VStr "ptag", VStr "end")]]);
+     ("g", Some [T "vprobe" BProbe [(VStr "ptag", VStr "parent-g")]])]);
+   ("child", [("steps", Some [
+       T "pypyr.steps.set" BSet [(VStr "set", VDict [(VStr "keep", VStr "childvalue")])];
+       T "vfail" BFail [(VStr "vfail", VDict [(VStr "err", VStr "ValueError"); (VStr "msg", VStr "child")])]]);
+     ("g", Some [T "vprobe" BProbe [(VStr "ptag", VStr "child-g")]])])].
+Definition tags (r : R) : list val :=
+  map (fun e => match e with VList (t :: _) => t | _ => VNone end) (trace (snd r)).
+Example C11_nonvacuous :
+  let r := api_run EFUEL lib11 "main" [(VStr "keep", VStr "mine")] None None None (1 # 4) in
+  fst r = OOk /\ tags r = [VStr "parent-g"; VStr "end"] /\
+  sget "keep" (ctx (snd r)) = Some (VStr "mine") /\ stack (snd r) = [].
+Proof. vm_compute. repeat split; reflexivity. Qed.
